@@ -14,10 +14,10 @@ ASSUMPTIONS = ["labels on an axis are pairwise distinct; dimension names distinc
                "invariant used for the inductive step: every variable axis *is* the dataset axis of that name; dataset dims = dims used by variables + directly appended ones; names distinct"]
 BOUNDS = {'quick': {'variables': '0..3', 'dims pool': 3, 'axis sizes': '1..2'}, 'thorough': {'variables': '0..3', 'dims pool': 3, 'axis sizes': '1..3'}}
 DEADLINE = {'quick': 120, 'thorough': 1200}
-SIZES = {'x': 2, 'y': 2, 'z': 1}
+SIZES = {'x': 2, 'y': 2, 'z': 1, 'w': 2}
 
 
-def build(ctx, structure, appended=()):
+def build(ctx, structure, appended=(), nan=False):
     """structure: list of (key, dims).  Returns ds and the reference state {labels: {dim: list}, vars: {key: Ref}, dims: [...]}"""
     da = ctx.da
     labels = {}
@@ -35,7 +35,7 @@ def build(ctx, structure, appended=()):
         n = 1
         for l in ls:
             n *= len(l)
-        cells = ctx.cells('f', n, 'v%d_' % i)
+        cells = ctx.cells('f', n, 'v%d_' % i, nan=nan)
         arr = ctx.mk(list(dims), ls, cells, lkinds=[LK[DIMS.index(d)] for d in dims], register=False)
         ds[key] = arr
         refs[key] = Ref(list(dims), ls, cells)
@@ -101,6 +101,9 @@ STRUCTS = {
     'a_y-b_xyz': [('a', ['y']), ('b', ['x', 'y', 'z'])],
     'a_y-b_xz': [('a', ['y']), ('b', ['x', 'z'])],
     'a_xyz-b_zy-c_x': [('a', ['x', 'y', 'z']), ('b', ['z', 'y']), ('c', ['x'])],
+    # two dimensions of the same label kind and size: their labels may coincide
+    'a_xw-b_x': [('a', ['x', 'w']), ('b', ['x'])],
+    'a_wx-b_w': [('a', ['w', 'x']), ('b', ['w'])],
 }
 
 
